@@ -154,13 +154,28 @@ def run():
   res = kernels.run_kernels(out, 'literals and flags', src, claimed, 1500, replay_k)
   hunt = kernels.run_kernels(out, 'bug hunting only (not claimed)', src,
                              ['k_flag_value_is_data', 'k_function_args_verbatim'], 60, replay_k, must_confirm=False)
+  asrc, anames = K.args_data_source()
+
+  def replay_args(name, args):
+    import re, subprocess, sys
+    nums = [int(x) for x in re.findall(r'-?\d+', args or '')]
+    si, ti = (nums + [0, 0])[:2]
+    script = kern.PRELUDE % __import__('os').environ.get('VERIF_REPO', '/repo') + asrc + (
+        '\nimport sys\ntry:\n  ok = arg_is_data(%d, %d)\nexcept Exception as e:\n  print(type(e).__name__, e); ok = False\n'
+        'print(NASTY[%d], TEMPLATES[%d][0])\nsys.exit(0 if ok else 7)\n' % (si, ti, si, ti))
+    r = subprocess.run([sys.executable, '-c', script], stdout=subprocess.PIPE, stderr=subprocess.STDOUT, text=True)
+    return (r.returncode == 7, 'a string argument of a built-in does not reach the result unchanged: %s' % r.stdout.strip()[-200:],
+            {'call': '%s(%s)' % (name, args), 'output': r.stdout[-800:]})
+  ares = kernels.run_kernels(out, 'built-in arguments are data', asrc, anames, 1800, replay_args,
+                             extra_args=['--unblock', 'sqlite3.connect', 'sqlite3.connect/handle', 'sqlite3.enable_load_extension',
+                                         'sqlite3.load_extension', '--per_path_timeout', '600'])
   src15, names15, _ = K15.source(thorough)
   res15 = kernels.run_kernels(out, 'string opacity (shared with C15)', src15,
                               ['k_opacity_dq', 'k_opacity_triple'], 5400 if thorough else 2400, replay_k)
-  confirmed = [n for n in claimed if res[n].get('verdict') == 'confirmed'] + \
+  confirmed = [n for n in anames if ares[n].get('verdict') == 'confirmed'] + [n for n in claimed if res[n].get('verdict') == 'confirmed'] + \
               [n for n in ('k_opacity_dq', 'k_opacity_triple') if res15[n].get('verdict') == 'confirmed']
   out.coverage.update({
-      'evaluations': queries + len(claimed) + 4,
+      'evaluations': queries + len(claimed) + 5,
       'distinct_nontrivial': proved + len(confirmed),
       'rule': 'one case = one dialect literal query (z3, unsat) or one lemma (CrossHair, "Confirmed over all paths" with a violated reachability twin)',
       'samples': [{'dialect': d, 'result': out.coverage['string_literals'].get(d)} for d in ('SqLite', 'DuckDB', 'BigQuery')],
@@ -176,6 +191,7 @@ def run():
       'dialect lexical rules (trusted): SQLite/PostgreSQL(standard_conforming_strings)/Presto/Trino: \'...\' with \'\' only; ClickHouse: \'...\' with \'\' and backslash escapes; DuckDB: E\'...\' with \'\' and backslash escapes; BigQuery/Databricks: "..." with backslash escapes; the SQLite rule is validated against real SQLite every run',
       'alphabet: tab, newline and every code point >= 0x20; other control characters (whose escapes differ between engines) are outside the claim; json.dumps is assumed to be the identity outside the tabulated specials (checked on 2000+ code points per run)',
       'flags: values of length <=3, one user flag f and one other flag g; a value spelling ${f} or ${g} is excluded (flags may refer to flags by design)',
+      'built-in arguments: 12 strings full of format / template metacharacters ({1}, {0}, {}, %s, %(x)s, {left}, quotes, backslash) x 12 programs passing them through Join, ++, Element, if, Greatest, in, Like, ToString, Size; compiled and run on real SQLite natively (the two indices are the symbolic variables); ${flag} is excluded (documented expansion)',
       'k_flag_value_is_data and k_function_args_verbatim are bug-hunting only: CrossHair does not reach "Confirmed" on str.replace / % formatting of symbolic strings within 60 s; nothing is claimed from them',
       'single-quoted Logica literals: bodies of <=3 (ASCII) / <=2 (Latin-1, BMP) / 1 (astral) code points without backslash, quote or line break, with ast.literal_eval replaced by its contract on that sub-domain (identity; validated against the interpreter on ~1500 code points per run); and with one of the four escapes (backslash followed by quote, backslash, n or t) at any position of a body of <=2 characters (ASCII / code points 0x80-0x2ff), with ast.literal_eval replaced by a pure-Python decoder of exactly these escapes; other escapes are outside the claim',
       'outside: literals longer than N',
